@@ -7,4 +7,6 @@ ExportCase ==
   (pc = 1 /\ verdict = "none" /\ fetches = <<>>) =>
      PrintT(<<"CASE", ToJson([w |-> w, o |-> o, model |-> CodeVerdict(w, o),
                               honest |-> Honest(w, o), necessary |-> Necessary(w, o)])>>)
+\* the case list only needs the initial states: this specification takes no step
+ExportSpec == Init /\ [][FALSE]_vars
 =================================================================================
